@@ -39,6 +39,9 @@ type storeHistory struct {
 	Cfgs  []StoreCfg
 	Names []string
 	Ops   []SOp
+	// optional second client on disjoint mailboxes (C11)
+	Names2 []string
+	Ops2   []SOp
 }
 
 func (h *storeHistory) Describe() []string {
@@ -49,6 +52,12 @@ func (h *storeHistory) Describe() []string {
 	l = append(l, "mailboxes "+strings.Join(h.Names, " | "))
 	for i, o := range h.Ops {
 		l = append(l, fmt.Sprintf("%3d %s", i, o.String()))
+	}
+	if len(h.Ops2) > 0 {
+		l = append(l, "second client on mailboxes "+strings.Join(h.Names2, " | "))
+		for i, o := range h.Ops2 {
+			l = append(l, fmt.Sprintf("  b%2d %s", i, o.String()))
+		}
 	}
 	return l
 }
